@@ -15,6 +15,7 @@ Record cfg_ok (c : vcfg) : Prop := mkCfgOk {
   co_heaps : Forall (fun h => 0 <= h_size h < 2 ^ 39) (c_heaps c);
   co_types : Forall (fun t => 0 <= ty_heap t < nheaps c) (c_types c);
   co_gran : c_gran c < 1 \/ Bits.pow2 (c_gran c);
+  co_gran_max : c_gran c <= 4294967296;      (* the page counters of the granularity bookkeeping are uint32 *)
   co_atom : c_atom c < 1 \/ Bits.pow2 (c_atom c)
 }.
 
